@@ -17,12 +17,12 @@ class C06(Spec):
     rule = ("1-4 writes of sizes 1..200 000 bytes issued through Transport::asyncWrite on a live listener, from the loop thread "
             "and from a foreign thread, with the outcome of each successive send call on that connection scripted through "
             "the PISTACHE_VERIF hook: every placement of one or two would-blocks and of short writes (1, 7, size-1 bytes) "
-            "over the first calls (exhaustive for scripts up to 4 outcomes over {accept-all, short, would-block}), a really blocked 8-32 MB write whose descriptor is then reported readable and writable in one poll result (worker kept busy meanwhile), plus seeded "
+            "over the first calls (exhaustive for scripts up to 4 outcomes over {accept-all, short, would-block}), memory and file buffers (sendfile) mixed with a late reader, a really blocked 8-32 MB write whose descriptor is then reported readable and writable in one poll result (worker kept busy meanwhile), plus seeded "
             "longer scripts. The peer's bytes are compared with the concatenation of the buffers, each promise's value with "
             "the buffer size, and the number of send calls with the model's. non-trivial = script containing a would-block "
             "or a short write; distinct by case line")
     assumptions = ["the scripted would-block is returned without the kernel buffer being full, so the writable event follows at once",
-                   "file buffers (sendfile) are not exercised"]
+                   "the outcome of sendfile calls is not scripted (file buffers block for real when the peer reads late)"]
 
     def gen(self, rng, tier):
         cases = []
@@ -35,6 +35,13 @@ class C06(Spec):
         # one poll result reporting the descriptor readable and writable while a write is pending
         for busy, mb in ([(300, 8), (200, 16)] if tier == "quick" else [(b, m) for b in (100, 300, 600) for m in (6, 8, 16, 32)]):
             cases.append("E %d %d" % (busy, mb << 20))
+        # memory and file buffers (sendfile) mixed, the peer starts reading late so that large buffers really block
+        fcases = ["F L 0 r100,f5000,r100", "F L 300 f8000000", "F L 300 r1000,f6000000,r1000,f300000", "F F 200 f4000000,r4000000,f10",
+                  "F L 0 f1", "F L 300 f3000000,f3000000", "F F 0 f70000,f70000,r1"]
+        for _ in range(6 if tier == "quick" else 120):
+            spec = ",".join("%s%d" % (rng.choice("rf"), rng.choice([1, 100, 4096, 65536, 1000000, 5000000, rng.randint(1, 3000000)])) for _ in range(rng.randint(1, 4)))
+            fcases.append("F %s %d %s" % (rng.choice("LF"), rng.choice([0, 100, 300]), spec))
+        cases.extend(fcases)
         n = 150 if tier == "quick" else 3000
         for _ in range(n):
             sizes = [rng.choice([1, 2, 100, 4096, 65536, 200000, rng.randint(1, 50000)]) for _ in range(rng.randint(1, 4))]
@@ -60,7 +67,7 @@ class C06(Spec):
                 return ("a write was pending when its descriptor was reported readable and writable together: the peer received %s of %s bytes, promise %s"
                         % (f["bytes"], t[2], {"P": "never settled", "R": "rejected"}.get(f["p"], "fulfilled with " + f["p"])))
             return None
-        sizes = [int(x) for x in t[2].split(",")]
+        sizes = [int(x[1:]) for x in t[3].split(",")] if t[0] == "F" else [int(x) for x in t[2].split(",")]
         if int(f["bytes"]) != sum(sizes) or f["content"] != "1":
             return "peer received %s bytes (content ok=%s) instead of the %d bytes issued, script %s" % (f["bytes"], f["content"], sum(sizes), t[3])
         vals = f["p"].split(",")
@@ -71,8 +78,14 @@ class C06(Spec):
             return "a write's promise was settled more than once"
         return None
 
+    def same(self, case, impl, model):
+        if case.startswith("F"):   # sendfile calls are not counted by the send hook
+            strip = lambda l: " ".join(x for x in l.split() if not x.startswith("calls="))
+            return strip(impl) == strip(model)
+        return impl == model
+
     def nontrivial(self, case, impl):
-        if case.startswith("E"):
+        if case.startswith(("E", "F")):
             return True
         sc = case.split()[3]
         return "w" in sc or "a1" in sc or "a7" in sc
@@ -81,6 +94,8 @@ class C06(Spec):
         t = case.split()
         if t[0] == "E":
             return "readable+writable"
+        if t[0] == "F":
+            return "file-buffers"
         return "%s-%dwrites-%s" % (t[1], len(t[2].split(",")), "wouldblock" if "w" in t[3].split(",") else "accept")
 
 
